@@ -17,9 +17,9 @@ from concurrent.futures import ThreadPoolExecutor
 
 import vlib
 
-WIRE_MON = ["RLayRoundTrip", "RLayReencode", "RLaybReencode", "RLvmAgree", "RLvmSetGet", "RNtsKinds",
+WIRE_MON = ["RLayRoundTrip", "RLayReencode", "RLaybReencode", "RLaypRoundTrip", "RLvmAgree", "RLvmSetGet", "RNtsKinds",
             "RNtsValues", "RNtsAuth", "RNtsAligned", "RSck", "RCrypt"]
-WIRE_STRICT = ["SLayBytes", "SLayFull", "SLayb", "SLvm", "SNtsEnc", "SNtsDec", "SSck"]
+WIRE_STRICT = ["SLayBytes", "SLayFull", "SLayb", "SLayp", "SLvm", "SNtsEnc", "SNtsDec", "SSck"]
 KE_MON = ["RSegmentationIndependent", "RKeRoundTrip"]
 KE_STRICT = ["SStream", "SNoExtraFetch", "SResult"]
 
@@ -82,6 +82,8 @@ def wire_class(r):
         return "lay %s.%s" % (r["m"], "+".join(r.get("diff") or [r["f"]]))
     if k == "layb":
         return "layb %s" % r["m"]
+    if k == "layp":
+        return "layp %s reused-destination %s" % (r["m"], "+".join(r.get("diff") or ["?"])[:80])
     if k == "nts":
         i = r["in"]
         return "nts %s cookies=%s placeholders=%s" % ("api" if r["src"].startswith("api") else "fields",
@@ -225,7 +227,7 @@ def _run(ctx, q, pool, lanes):
     for r in krecs:
         modes[r["mode"]] = modes.get(r["mode"], 0) + 1
     ctx.log("driver: %d codec records %s, %d stream reads %s" % (len(wrecs), kinds, len(krecs), modes))
-    for k in ("lay", "layb", "lvm", "nts", "sck", "eck", "crypt"):
+    for k in ("lay", "layb", "layp", "lvm", "nts", "sck", "eck", "crypt"):
         if not kinds.get(k):
             raise vlib.Inconclusive("driver produced no %s record" % k)
     if not modes.get("mem") or not modes.get("tls"):
@@ -329,7 +331,7 @@ def _run(ctx, q, pool, lanes):
 
     def key(r):
         if "k" in r:
-            return json.dumps([r.get(x) for x in ("k", "m", "ssds", "base", "f", "mode", "pre", "vs", "b", "x", "in", "keyid", "src")],
+            return json.dumps([r.get(x) for x in ("k", "m", "ssds", "base", "f", "mode", "pre", "vs", "b", "x", "in", "keyid", "src", "prev", "vals")],
                               sort_keys=True)
         return json.dumps([r["mode"], r["stream"], r["cuts"]])
     # distinct non-trivial evaluations: distinct (message, field, condition, base pattern, value) observations of
@@ -352,7 +354,8 @@ def _run(ctx, q, pool, lanes):
         rule="codec records: TLC-enumerated (message type, field, base pattern) x value list (all 256 values of every 8-bit "
              "field; 16-bit fields swept over all low bytes for the high bytes of the tier (all 256 in thorough); "
              "{0, max, sign boundaries, 2^k, 2^k+-1} for every width) + masked byte patterns decoded and re-encoded + "
-             "all 256 first bytes x 20 setter calls + NTS packet shapes (unique id / cookie / placeholder / encrypted "
+             "values decoded into a destination holding a previously decoded value (TLC-enumerated pairs of (flag, base pattern) "
+             "classes incl. flag set -> flag clear, plus seeded random contents) + all 256 first bytes x 20 setter calls + NTS packet shapes (unique id / cookie / placeholder / encrypted "
              "cookie lengths, NewRequestPacket / NewResponsePacket) with seeded contents + cookie shapes; stream reads: every "
              "TLC behaviour (message of <= MaxRecs records + end of message, every segmentation into <= MaxChunks reads) "
              "replayed through a chunking io.Reader, a subset over an in-memory TLS connection written in explicit "
@@ -361,6 +364,9 @@ def _run(ctx, q, pool, lanes):
         traces_validated_against_impl=nw + nk, exhaustive=True, samples=small,
         records=dict(codec=kinds, stream=modes, layout_values=nvals), spec_variant=variant)
     ctx.assumptions += [
+        "decoding into a reused destination is judged for the fixed-layout decoders (ntp.DecodePacket, csptp.DecodeMessage / "
+        "DecodeRequestTLV / DecodeResponseTLV; the CSPTP client reuses its Message and ResponseTLV variables); nts.DecodePacket "
+        "appends to the destination's slices and every caller passes a fresh nts.Packet, so it is decoded into fresh values only",
         "unique identifiers / cookies: value round trip claimed for lengths that are multiples of 4 (what the project emits); "
         "other lengths are reported as observations",
         "AEAD records: claimed for exactly one algorithm (what client and server emit)",
